@@ -1,3 +1,5 @@
 Require Import ExtrOcamlBasic.
 Require Import SGV.Routing.Torus.
-Extraction "c26_model.ml" run_torus run_star.
+Require Import SGV.Routing.FatTree.
+Require Import SGV.Routing.Dragonfly.
+Extraction "c26_model.ml" run_torus run_star run_fattree run_dragonfly.
